@@ -157,11 +157,16 @@ pub fn apply_fault(rng: &mut Rng, basis: &mut Vec<u8>, d: &mut Delta, other_basi
             None
         }
         12 => {
-            d.source_size = match rng.below(4) {
+            d.source_size = match rng.below(9) {
                 0 => 0,
                 1 => d.source_size.wrapping_add(1),
                 2 => u64::MAX,
-                _ => rng.next(),
+                3 => rng.next(),
+                4 => d.source_size.saturating_sub(1),
+                5 => d.source_size.wrapping_mul(2),
+                6 => d.source_size.wrapping_add(rng.range(2, 200_000) as u64),
+                // overstated into the ranges where an implementation may start to pre-size or pre-allocate
+                _ => *rng.pick(&[65_536u64, 1 << 20, (1 << 20) + 1, 3 << 20, 1 << 24, 1 << 30, 1 << 32]),
             };
             f("source_size", format!("{}", d.source_size))
         }
@@ -523,9 +528,11 @@ fn cli_one(seed: u64, idx: u64, work: &Path, rep: &mut Report) {
         let sigc = if bs_ok { "valid-bs" } else { "invalid-bs" };
         rep.violation(&format!("C05|cli|died-by-signal-{sig}|{sigc}"), json!({"ctx": ctx, "stderr": r.stderr.chars().take(300).collect::<String>()}));
     } else if r.code == Some(0) {
-        let out = std::fs::read(dir.join("out")).unwrap_or_default();
-        if blake3::hash(&out).as_bytes() != d.checksum.as_bytes() {
-            rep.violation("C05|cli|exit0-but-hash-mismatch", json!({"ctx": ctx}));
+        // an output far larger than anything these cases produce cannot hash to the checksum; do not read it
+        let huge = std::fs::metadata(dir.join("out")).map(|m| m.len() > (64 << 20)).unwrap_or(false);
+        let out = if huge { Vec::new() } else { std::fs::read(dir.join("out")).unwrap_or_default() };
+        if huge || blake3::hash(&out).as_bytes() != d.checksum.as_bytes() {
+            rep.violation("C05|cli|exit0-but-hash-mismatch", json!({"ctx": ctx, "output_over_64MiB": huge}));
         }
         rep.count("cli_exit0", 1);
     } else if !r.stderr.contains("Error") {
